@@ -91,7 +91,7 @@ class Check:
         if coverage_required:
             ex += ["-coverage", "1"]
         r = tlc.run(module, cfg, workers=workers, timeout=timeout, extra=ex, heap=heap,
-                    tag="%s-%s" % (self.prop, os.path.basename(cfg)))
+                    tag="%s-%s-%d" % (self.prop, os.path.basename(cfg), os.getpid()))
         rec = {"module": module, "cfg": cfg, "distinct": r["distinct"], "generated": r["generated"],
                "depth": r["depth"], "wall_s": round(r["wall_s"], 1), "violated": r["violated"]}
         self.models.append(rec)
@@ -121,7 +121,7 @@ class Check:
     def validate(self, module, cfg, traces, tag, sig=None, nontrivial=None, shards=16, deque=False,
                  expect_reject=False):
         """validate traces recorded from the real code; returns list of verdicts"""
-        verdicts, st = tracecheck.validate(module, cfg, traces, "%s-%s" % (self.prop, tag), shards=shards,
+        verdicts, st = tracecheck.validate(module, cfg, traces, "%s-%s-%d" % (self.prop, tag, os.getpid()), shards=shards,
                                            deque=deque)
         self.states += st["distinct"]
         self.transitions += st["generated"]
@@ -147,7 +147,8 @@ class Check:
                 self.known_seen.setdefault(f["id"], f)
                 return "known"
         h = hashlib.sha1(json.dumps(scenario, sort_keys=True).encode()).hexdigest()[:12]
-        path = os.path.join(VERIF, "replays", "%s-%s.json" % (self.prop, h))
+        path = os.path.join(os.environ.get("VERIF_REPLAY_DIR", os.path.join(VERIF, "replays")), "%s-%s.json" % (self.prop, h))
+        os.makedirs(os.path.dirname(path), exist_ok=True)
         with open(path, "w") as fh:
             json.dump({"property": self.prop, "scenario": scenario, "clauses": clauses, "at": at,
                        "event": event, "kind": kind}, fh, indent=1)
@@ -173,7 +174,9 @@ class Check:
         ev = {"property_id": self.prop, "tier": self.tier, "seed": int(self.seed), "level": self.level,
               "coverage": cov, "assumptions": self.assumptions, "wall_s": round(wall, 2),
               "violations": len(self.violations)}
-        with open(os.path.join(VERIF, "evidence", "%s.json" % self.prop), "w") as fh:
+        evdir = os.environ.get("VERIF_EVIDENCE_DIR", os.path.join(VERIF, "evidence"))
+        os.makedirs(evdir, exist_ok=True)
+        with open(os.path.join(evdir, "%s.json" % self.prop), "w") as fh:
             json.dump(ev, fh, indent=1)
         for fid, f in sorted(self.known_seen.items()):
             print("KNOWN-FINDING: property=%s %s %s" % (self.prop, fid, f["what"]))
